@@ -25,7 +25,7 @@ use vengine::{Fail, Obs};
 pub fn case_timeout_s(sub: &str) -> u64 {
     match sub {
         "glm" => 6,
-        _ => 60,
+        _ => 30,
     }
 }
 pub const SHRINK_BUDGET_S: u64 = 90;
@@ -174,6 +174,11 @@ fn run_child(sub: &str, json: &str) -> ChildResult {
 
 /// Evaluate `case` of sub-check `sub` in a child process and merge what it observed into `obs`.
 pub fn isolated<C: Serialize>(sub: &'static str, case: &C, obs: &mut Obs, hang_suffix: &str) {
+    isolated_with(sub, case, obs, &|| hang_suffix.to_string())
+}
+
+/// like `isolated`; the suffix of the `hang:<sub>` signature is computed only when a case was killed
+pub fn isolated_with<C: Serialize>(sub: &'static str, case: &C, obs: &mut Obs, hang_suffix: &dyn Fn() -> String) {
     let json = serde_json::to_string(case).unwrap_or_else(|_| "null".into());
     let h = vengine::fnv64(json.as_bytes());
     let shortcut = with_state(|st| {
@@ -199,7 +204,7 @@ pub fn isolated<C: Serialize>(sub: &'static str, case: &C, obs: &mut Obs, hang_s
             nontrivial: false,
             skipped: false,
             fails: vec![(
-                format!("hang:{sub}{hang_suffix}"),
+                format!("hang:{sub}{}", hang_suffix()),
                 format!("evaluating the case (fit + predictions) did not finish within {} s; the child process was killed", case_timeout_s(sub)),
             )],
         },
